@@ -16,6 +16,34 @@ builds the headers as rule-abiding children of the head or breaks their parent l
 namespace TM.EvmProof.Life
 open TM TM.EvmProof
 
+/-- an entry of the header index: what `RestrictChain` reads back when it walks a branch -/
+structure Hdr where
+  hash : Bytes
+  parent : Bytes
+  h : Height
+  root : Bytes
+  time : UInt64
+  deriving DecidableEq
+
+def findHdr (hs : List Hdr) (hash : Bytes) : Option Hdr := hs.find? (fun x => x.hash == hash)
+
+/-- the hashes of a header and its known ancestors (fuel = size of the index: no cycles are assumed) -/
+def ancestry : Nat → List Hdr → Bytes → List Bytes
+  | 0, _, _ => []
+  | fuel+1, hs, hash =>
+    match findHdr hs hash with
+    | none => []
+    | some x => hash :: ancestry fuel hs x.parent
+
+/-- the headers of the branch ending in `hash` that are not on the old main chain `old` (tip first) -/
+def newBranch : Nat → List Hdr → List Bytes → Bytes → List Hdr
+  | 0, _, _, _ => []
+  | fuel+1, hs, old, hash =>
+    if old.contains hash then [] else
+    match findHdr hs hash with
+    | none => []
+    | some x => x :: newBranch fuel hs old x.parent
+
 /-- the whole stored client state (ETH: Header, ChainId, ContractAddress, TrustingPeriod, TimeDelay, BlockDelay) -/
 structure Life where
   cs : ClientState             -- kind, head (= Header.Height), contract, blockDelay (nValidators unused for ETH)
@@ -24,6 +52,7 @@ structure Life where
   trusting : UInt64
   timeDelay : UInt64
   store : ConsStore
+  hdrs : List Hdr              -- the header index (`SetEthHeaderIndex`): every header ever accepted, by hash
 
 /-- `SetClientConsensusState`: overwrite or add -/
 def setCons (s : ConsStore) (h : Height) (e : ConsEntry) : ConsStore :=
@@ -41,32 +70,50 @@ structure Config where
   head : Height
   headHash : Bytes
   cons : ConsState             -- the supplied consensus state (stored verbatim)
+  parent : Bytes := []         -- ParentHash of the proposal's header (only the header index sees it)
+  root : Bytes := []           -- Header.Root / Time of the proposal's header (the consensus state is supplied separately)
+  time : UInt64 := 0
 
-def fromConfig (c : Config) (store : ConsStore) : Life :=
+def fromConfig (c : Config) (store : ConsStore) (hdrs : List Hdr) : Life :=
   { cs := { kind := .eth, head := c.head, contract := c.contract, blockDelay := c.blockDelay, nValidators := 0 }
     headHash := c.headHash, chainId := c.chainId, trusting := c.trusting, timeDelay := c.timeDelay
-    store := setCons store c.head (.state c.cons) }
+    store := setCons store c.head (.state c.cons)
+    hdrs := { hash := c.headHash, parent := c.parent, h := c.head, root := c.root, time := c.time } :: hdrs }
 
 /-- `CreateClient` and `ToggleClient` (which clears the client store first) -/
-def create (c : Config) : Life := fromConfig c []
+def create (c : Config) : Life := fromConfig c [] []
 
-/-- `UpgradeClient`: the old consensus states stay (ETH `UpgradeState` prunes nothing) -/
-def upgrade (l : Life) (c : Config) : Life := fromConfig c l.store
+/-- `UpgradeClient`: the old consensus states and header index stay (ETH `UpgradeState` prunes nothing) -/
+def upgrade (l : Life) (c : Config) : Life := fromConfig c l.store l.hdrs
 
-/-- `UpdateClient` with an accepted header: only the header (head, its hash) changes in the client state -/
-def update (l : Life) (h : Height) (hash root : Bytes) (time : UInt64) : Life :=
-  { l with cs := { l.cs with head := h }, headHash := hash,
-           store := setCons l.store h (.state { timestamp := time, height := h, root := root }) }
+/-- re-pointing of `RestrictChain`: every header of the new branch becomes the consensus state of its height -/
+def repoint (s : ConsStore) (branch : List Hdr) : ConsStore :=
+  branch.foldr (fun x s => setCons s x.h (.state { timestamp := x.time, height := x.h, root := x.root })) s
+
+/-- `UpdateClient` with an accepted header. The ETH client makes EVERY accepted header its head — a child of the head, a
+    sibling, a header below the head, a child of an abandoned tip — so the head moves up, sideways or down
+    (`newClientState.Header = *ethHeader`, stored by the keeper unconditionally). Only the header changes in the client
+    state. Consensus states: the header's own height, and (when its parent is not the old head) every height of its
+    branch down to the fork point with the old main chain is re-pointed to that branch (`RestrictChain`). Consensus
+    states of the abandoned branch above the new head stay in the store (and are above the head). -/
+def update (l : Life) (h : Height) (hash parent root : Bytes) (time : UInt64) : Life :=
+  let x : Hdr := { hash, parent, h, root, time }
+  let hdrs := x :: l.hdrs
+  let fuel := hdrs.length + 1
+  let branch := if parent = l.headHash then [x] else newBranch fuel hdrs (ancestry fuel l.hdrs l.headHash) hash
+  { l with cs := { l.cs with head := h }, headHash := hash, hdrs := hdrs,
+           store := setCons (repoint l.store branch) h (.state { timestamp := time, height := h, root := root }) }
 
 /-- a header update as an op: rejected headers change nothing -/
 structure Upd where
   accepted : Bool
   h : Height
   hash : Bytes
+  parent : Bytes
   root : Bytes
   time : UInt64
 
-def applyUpd (l : Life) (u : Upd) : Life := if u.accepted then update l u.h u.hash u.root u.time else l
+def applyUpd (l : Life) (u : Upd) : Life := if u.accepted then update l u.h u.hash u.parent u.root u.time else l
 
 def applyUpds (l : Life) (us : List Upd) : Life := us.foldl applyUpd l
 
